@@ -126,6 +126,12 @@ CHECKS['C10'] = dict(
          'L3: solver-chosen abstract programs (commands, EEMS-2 commands, arguments, 10 value kinds, nested lists, tuples, trailing commas) are rendered to token streams whose values and line numbers are z3 terms; the real LRParser + actions must return a tree term-equal to the abstract program; every sampled single-token deletion/duplication/substitution must be accepted iff a reference recogniser accepts and otherwise raise SyntaxError. LC: 128 concrete layouts of one program through the real Parser.',
     note='Trusted: z3 regex/strings; A-lex (greedy = longest, checked on each lemma model); stub lexer in L3 justified by L1; reference grammar in DESIGN.md Appendix D (ambiguous bracketed colon text not asserted).',
     ref='DESIGN.md §4 C10')
+CHECKS['C17'] = dict(
+    technique='symbolic execution of the real csv/io.py read and write bodies on the symbolic numpy under open/csv stubs (symbolic table: row emptiness, numeric cells, MissingVal); z3 decides value/mask/row-order obligations; every path model replayed through the real csv module on a real file',
+    text='Partial claim (logic of csv/io.py; text<->double conversion is C code outside the solver): the real EEMSRead.execute runs on a symbolic table and must return the requested column in row order with blank rows skipped, the requested element type (integer cast = truncation), exactly the cells equal to the symbolic MissingVal masked, unaffected by other columns; '
+         'missing header / empty file / non-numeric cells must raise the documented error naming the physical file line; the real EEMSWrite.execute must emit the header of result names in the listed order and one row per cell with the cell values. Bit-exact float text round trip is only exercised concretely on 11 extreme doubles (supplementary).',
+    note='Trusted: z3, symnp, S-open/csv stubs (validated per path against the real csv module and numpy); known finding: masked cells are written as "--" (known_findings.json).',
+    ref='DESIGN.md §5 C17')
 NOT_YET = {}
 ALL = ['C%02d' % i for i in range(1, 21)]
 
